@@ -544,6 +544,8 @@ fn run_c19(tier: Tier, shard: Shard) -> ! {
     for k in [
         "c19_msgs_handled", "c19_send_full", "c19_send_closed", "c19_call_replied", "c19_msgs_dropped_by_stop_or_failure", "c19_exit_stopped", "c19_exit_failed",
         "c19_start_failed", "c19_name_taken", "c19_name_reused", "c19_group_routed", "c19_group_handed_back", "c19_supervisor_respawn",
+        "c19_pre_stop_failed_post_stop_ran", "c19_stop_hook_failure_turned_stop_into_failed", "c19_stop_hook_failure_kept_earlier_failure",
+        "c19_name_reused_while_failed_actor_value_alive",
     ] {
         report.must_reach(k);
     }
